@@ -9,7 +9,7 @@ clean <cons 0|1> <shard> <root d|m|f|b> <nNodes> {node} <nSteps> {step}
 node   := <namehex> (D | L | J | A <shard> <logId> <start> <end> <count> <n> {entry})
 entry  := <typehex> <ctxhex> <ts> <eid> <n> {<keyhex> <value>}
 value  := n | t | f | i<int> | d<hex16> | T<int> | s<hex> | B<hex>
-step   := <nFiles> {file} <bound>
+step   := <nFiles> {file} (C|P|M) <arg>   -- cleanup_up_to / archive_logs_up_to / archive_log
 file   := <namehex> (r|u) (d|k) <nLines> {line}
 line   := b | g | e <rawentry>          -- rawentry = entry with jvalues
 jvalue := n | t | f | i<int> | d<hex16> | s<hex> | c<hex>
@@ -167,11 +167,20 @@ def pNode : P (Name × Node) := do
     pure (name, .archive { header := { shard := shard, logId := id, startTs := s, endTs := e, count := c }, entries := es })
   | _ => failure
 
-def pStep : P (Step DLine) := do
+/-- `C` cleanup_up_to, `P` archive_logs_up_to, `M` archive_log -/
+inductive OpKind | clean | pass | one
+
+def pStep : P (Step DLine × OpKind) := do
   let n ← pNat
   let files ← rep n pFile
+  let k ← (do
+    match (← tok) with
+    | "C" => pure OpKind.clean
+    | "P" => pure OpKind.pass
+    | "M" => pure OpKind.one
+    | _ => failure : P OpKind)
   let bound ← pNat
-  pure { add := files, bound := bound }
+  pure ({ add := files, bound := bound }, k)
 
 /-! rendering -/
 
@@ -234,9 +243,21 @@ def runClean : P String := do
   let steps ← rep ns pStep
   if !(← get).isEmpty || cons > 1 then failure
   let init : List (WalFile DLine) × ArchFs := ([], { root := root, nodes := nodes })
-  let (_, outs) := steps.foldl (fun (acc : (List (WalFile DLine) × ArchFs) × List String) s =>
-    let st := runStep (cons == 1) dparser (fun _ => false) shard acc.1 s
-    (st, rObs st.1 st.2 :: acc.2)) (init, [])
+  let (_, outs) := steps.foldl (fun (acc : (List (WalFile DLine) × ArchFs) × List String) sk =>
+    let s := sk.1
+    match sk.2 with
+    | .clean =>
+      let st := runStep (cons == 1) dparser (fun _ => false) shard acc.1 s
+      (st, ("res=- " ++ rObs st.1 st.2) :: acc.2)
+    | .pass =>
+      let wal := addFiles acc.1.1 s.add
+      let r := archivePass dparser (fun _ => false) shard s.bound wal wal acc.1.2
+      let oks := (r.1.filter id).length
+      ((wal, r.2), (s!"res={oks}:{r.1.length - oks} " ++ rObs wal r.2) :: acc.2)
+    | .one =>
+      let wal := addFiles acc.1.1 s.add
+      let r := archiveLog dparser (fun _ => false) shard wal acc.1.2 s.bound
+      ((wal, r.2), ((if r.1 then "res=ok " else "res=err ") ++ rObs wal r.2) :: acc.2)) (init, [])
   pure (" ".intercalate outs.reverse)
 
 def runReser : P String := do
